@@ -12,7 +12,7 @@ func init() {
 	register(&PropDef{
 		ID:    "C56",
 		Pkgs:  []string{dnsp},
-		Claim: "Decides the structural part: in the DNS watcher, between two successive lookups every path passes through the wait on a timer built from the next-resolution time (or leaves on resolver shutdown), and after a successful update additionally through the wait for a re-resolution request; the next-resolution time is now+MinResolutionInterval after success and now+backoff(index) after failure, the index growing on failure and returning to 1 on success; both waits have the shutdown arm and Close cancels and waits for the watcher; target parsing returns the trailing-colon error for an empty port, substitutes localhost for an empty host, and IP formatting brackets exactly the non-IPv4 addresses. Durations are not decided.",
+		Claim: "Decides the structural part: in the DNS watcher, between two successive lookups every path passes through the wait on a timer built from the next-resolution time (or leaves on resolver shutdown), and after a successful update additionally through the wait for a re-resolution request; the next-resolution time is now+MinResolutionInterval after success and now+backoff(index) after failure, the index growing on failure and returning to 1 on success; both waits have the shutdown arm and Close cancels and waits for the watcher; target parsing returns the trailing-colon error for an empty port, substitutes localhost for an empty host, and IP formatting brackets exactly the non-IPv4 addresses. Durations are not decided. Each success form of parseTarget (bare IP, host:port, host without port) is returned only under the outcome of its own parse, localhost replaces exactly an empty host, the resolver emits state only after a successful lookup and reports an error only after a failed one, and formatIP never turns a parse failure into success.",
 		NotDecided:  []string{"the real-time length of the waits (30s minimum interval, backoff durations)", "the full target grammar (delegated to net.SplitHostPort / netip.ParseAddr)"},
 		Assumptions: []string{"net.SplitHostPort and netip.ParseAddr behave as documented"},
 		Technique:   "static analysis: must-pass-through path search over the watcher loop, value-origin, dominating guards on go/ssa branch facts",
